@@ -1,6 +1,6 @@
 (* C09 — Revocation witnesses track the accumulator through any history. *)
 From Coq Require Import ZArith List.
-From Gabi Require Import ModArith GoSem Revocation RevocationSound.
+From Gabi Require Import ModArith GoSem Revocation RevocationSound UpdateComplete.
 Import ListNotations.
 Open Scope Z_scope.
 
@@ -35,3 +35,24 @@ Proof. exact shared_update_history_lem. Qed.
 Theorem revoked_value_fails_gcd :
   forall e p g a b, 1 < e -> (e | p) -> xgcd e p = (g, a, b) -> g <> 1.
 Proof. exact xgcd_divides. Qed.
+
+(* Completeness: a valid witness for a value that was not removed follows the accumulator. For an authentic
+   update that starts no later than the witness' next index, whose events' product is coprime to the witness'
+   value (it was not removed) and whose accumulator is the old one with those values removed
+   (nu_new ^ prod = nu_old), Update succeeds and the new witness is valid for the new accumulator. *)
+Theorem witness_update_complete :
+  forall n, 1 < n ->
+  forall w u newAcc first rest prod u' ui nuni,
+  update_verify u = Ok newAcc ->
+  up_events u = first :: rest ->
+  ra_Index (w_acc w) < ra_Index newAcc ->
+  ev_index first <= u64 (ra_Index (w_acc w) + 1) ->
+  update_product u (u64 (ra_Index (w_acc w) + 1)) = Ok (prod, u') ->
+  0 <= w_E w -> 0 <= prod -> Z.gcd (w_E w) prod = 1 ->
+  go_modinverse (w_U w) n = Some ui -> go_modinverse (ra_Nu newAcc) n = Some nuni ->
+  0 <= ra_Nu newAcc < n ->
+  powm n (w_U w) (w_E w) = ra_Nu (w_acc w) ->
+  powm n (ra_Nu newAcc) prod = ra_Nu (w_acc w) ->
+  exists newU, witness_update n w u = (UpdOk, mkW newU (w_E w) newAcc, u') /\
+               powm n newU (w_E w) = ra_Nu newAcc.
+Proof. exact witness_update_complete_lem. Qed.
